@@ -57,6 +57,34 @@ func run(rt *rapid.T) {
 		n = len(pool)
 	}
 	present, absent := pool[:n], pool[n:]
+	// some absent keys are near twins of a present one: they follow its path for 1..63 nibbles and leave it inside
+	// whatever node holds the rest of that path
+	twinOf := map[string][]byte{}
+	if len(present) > 0 && rootKind != "short" {
+		for i := range absent {
+			if !gen.Chance(rt, 40, "absenttwin") {
+				continue
+			}
+			base := gen.Pick(rt, present, "twinbase")
+			tw := cloneKey(base)
+			at := gen.Pick(rt, []int{1, 1, 2, 3, 8, 31, 62, 63}, "twinat")
+			if at%2 == 0 {
+				tw[at/2] ^= 0x10 << uint(gen.Uniform(rt, 0, 3, "twinbit"))
+			} else {
+				tw[at/2] ^= 0x01 << uint(gen.Uniform(rt, 0, 3, "twinbit"))
+			}
+			live := false
+			for _, k := range pool {
+				if bytes.Equal(k, tw) {
+					live = true
+				}
+			}
+			if !live {
+				absent[i] = tw
+				twinOf[string(tw)] = base
+			}
+		}
+	}
 	// the label says what the root really is
 	switch {
 	case len(present) == 0:
@@ -116,12 +144,18 @@ func run(rt *rapid.T) {
 	// request
 	nreq := gen.Pick(rt, []int{0, 1, 2, 5, 9, 10, 11, 12, 18, 25}, "nreq")
 	var req [][]byte
+	absentTwins := false
 	for i := 0; i < nreq; i++ {
 		switch {
 		case len(present) > 0 && gen.Chance(rt, 65, "reqpresent"):
 			req = append(req, cloneKey(gen.Pick(rt, present, "rp")))
 		case len(absent) > 0:
-			req = append(req, cloneKey(gen.Pick(rt, absent, "ra")))
+			a := gen.Pick(rt, absent, "ra")
+			req = append(req, cloneKey(a))
+			if base := twinOf[string(a)]; base != nil && gen.Chance(rt, 70, "twinboth") {
+				req = append(req, cloneKey(base))
+				absentTwins = true
+			}
 		}
 	}
 	desc := func() string {
@@ -215,6 +249,9 @@ func run(rt *rapid.T) {
 		cls = append(cls, "requested>10")
 	} else {
 		cls = append(cls, "requested<=10")
+	}
+	if absentTwins {
+		cls = append(cls, "absent-near-twin-requested-with-its-present-sibling")
 	}
 	if deletedPresent {
 		cls = append(cls, "delete-requested")
